@@ -140,6 +140,12 @@ fn reference_has_tiny_pivot(ahat: &[Vec<f64>], signs: &[i8], reg: bool, eps: f64
             dk -= l[k][j] * l[k][j] * d[j];
             mag += (l[k][j] * l[k][j] * d[j]).abs();
         }
+        if !(mag < 1e100) {
+            // regularised pivots of the wrong sign make the factors grow without bound (1e212 after ten steps);
+            // beyond the double range the engine's exact zero / non-finite pivots are not comparable: as for the
+            // unbounded-growth discard of successful factorisations, nothing is judged
+            return true;
+        }
         let tiny = dk.abs() <= 1e-6 * mag || dk == 0.0;
         if tiny && !(reg && eps > 1e-6 * mag) {
             // rounding decides whether the engine sees an exact zero here
@@ -333,6 +339,12 @@ fn verify_factor(
             ra += (l[i][j] * d[j]).abs() * wa[j];
         }
         let tol = 20.0 * nn * nn * eps * (ra + bp[i].abs());
+        if !tol.is_finite() || !r.is_finite() {
+            // intermediate products overflow although x itself is finite: same discard as solution-overflow
+            ctx.discard = true;
+            ctx.label("discard:solution-overflow");
+            return Ok(());
+        }
         ensure!(
             (r - bp[i]).abs() <= tol,
             "{what}: solve residual row {i}: (LDL'x)={r:e} b={:e} tol={tol:e} (perm {:?})",
